@@ -592,6 +592,16 @@ func (r *Run) jobMain(j *JobRec) int {
 	j.Outcome = "complete"
 	j.EndSeq = vos.NextSeq()
 	md.UpdateJournal(core.CompleteFile)
+	switch fault {
+	case "complete-then-exit-nonzero":
+		// the job reported completion, then its process failed (teardown crash)
+		j.Outcome = "failed:exit-after-complete"
+		return 3
+	case "complete-then-die":
+		j.Outcome = "killed"
+		vproc.Finish(j.proc, -1, syscall.SIGKILL)
+		select {}
+	}
 	if r.DupJournal != nil && r.DupJournal(j) {
 		md.UpdateJournal(core.CompleteFile)
 	}
